@@ -251,6 +251,29 @@ pub fn worker(case: &Value) -> Value {
                 }
             }
         }
+        "R" => {
+            for (prog, label) in vcore::gen01::rich_operand_programs() {
+                let (class, nt, bad) = differential(&prog, b"", "R");
+                n += 1;
+                *hist.entry(class).or_insert(0) += 1;
+                if nt {
+                    nontrivial += 1;
+                }
+                if sample.is_null() {
+                    sample = json!({"axis": "R", "text": print_default(&prog).text});
+                }
+                if let Some((sig, msg, text)) = bad
+                    && bads.len() < 25
+                {
+                    bads.push(json!({
+                        "sig": format!("C01|{}|{}", sig, label),
+                        "summary": format!("{} — operands {} — program: {:?}", msg, label, super::truncate_text(&text, 700)),
+                        "text": text,
+                        "case": {"axis": "text", "text": text},
+                    }));
+                }
+            }
+        }
         "T" => {
             use vcore::gen01::{TRUTH_KINDS, TRUTH_VALUES, truth_program};
             for kind in 0..TRUTH_KINDS.len() {
@@ -405,6 +428,8 @@ pub fn drive(tier: &str) -> i32 {
     }
     cases.push(json!({"axis": "T"}));
     plan.push(json!({"axis": "T", "programs": 2 * vcore::gen01::TRUTH_KINDS.len() * vcore::gen01::TRUTH_VALUES.len()}));
+    cases.push(json!({"axis": "R"}));
+    plan.push(json!({"axis": "R", "programs": vcore::gen01::rich_operand_programs().len()}));
     cases.push(json!({"axis": "P"}));
     plan.push(json!({"axis": "P", "programs": vcore::gen01::print_continuation_programs().len() + 24}));
     cases.push(json!({"axis": "C2"}));
@@ -444,7 +469,7 @@ pub fn drive(tier: &str) -> i32 {
         run.capped = true;
     }
     let mut ev = Evidence::new("exploration");
-    ev.set("rule", "axis B: every binary operator x 5x5 operand types x a 4-value menu per type x 9 contexts (PRINT, assignment to each of the 5 types, IF condition, SELECT subject, FOR bound), operands as literals, as variables and (where the value is stored or bounds a loop) as variables with the whole expression in parentheses, both unary operators, depth-2 shapes in the thorough tier; ill-typed combinations must be rejected with Type mismatch; snippets that end normally are batched into one program (bisected on disagreement), snippets that end in an error run alone. Axis C: every sequence of up to n DATA items x every admissible assignment of variable types x placements of the DATA lines, plus reading past the end. Axis T: 9 condition values (2, 1, -1, 0, -2, .5, 0.0, 32767, 100000; literal and variable) in IF, ELSEIF, single-line IF, IF NOT, WHILE and the four DO forms: true is whatever is not zero. Axis C2: three DATA statements, the middle one inside each of 22 block positions (every branch kind taken and not taken, every loop kind with two, one or no rounds, nested blocks), READ before or after them: the values come in textual order whatever was executed. axis A: every ordered forest of n construct nodes (n <= 2, thorough 3, also in the layout that writes every loop / SELECT CASE without a block IF inside on one source line, nested ones sharing their row, and (n <= 2) with LET before every assignment and CALL before every SUB call) over 15 construct kinds (IF, IF/ELSE, IF/ELSEIF/ELSE, single-line IF, two SELECT forms, four FOR forms, WHILE, four DO forms), children placed in the first or in the last body, at module level or inside a SUB; every body carries a trace statement; the program is printed, run on the real pipeline and on the reference semantics, and stdout / end state (error code and row) are compared. Non-trivial = every statement of the program was executed at least once. Axis P: a PRINT that leaves the line open (5 forms ending in ; or ,) and the PRINT that continues it (5 forms) in 5 placements (in sequence, the first three times in a FOR loop, in an IF block / a WHILE body, the first in a SUB, an assignment and an LPRINT in between); FOR headers whose literal start, limit or step does not fit the counter (Overflow before the body runs).");
+    ev.set("rule", "axis B: every binary operator x 5x5 operand types x a 4-value menu per type x 9 contexts (PRINT, assignment to each of the 5 types, IF condition, SELECT subject, FOR bound), operands as literals, as variables and (where the value is stored or bounds a loop) as variables with the whole expression in parentheses, both unary operators, depth-2 shapes in the thorough tier; ill-typed combinations must be rejected with Type mismatch; snippets that end normally are batched into one program (bisected on disagreement), snippets that end in an error run alone. Axis C: every sequence of up to n DATA items x every admissible assignment of variable types x placements of the DATA lines, plus reading past the end. Axis T: 9 condition values (2, 1, -1, 0, -2, .5, 0.0, 32767, 100000; literal and variable) in IF, ELSEIF, single-line IF, IF NOT, WHILE and the four DO forms: true is whatever is not zero. Axis C2: three DATA statements, the middle one inside each of 22 block positions (every branch kind taken and not taken, every loop kind with two, one or no rounds, nested blocks), READ before or after them: the values come in textual order whatever was executed. axis A: every ordered forest of n construct nodes (n <= 2, thorough 3, also in the layout that writes every loop / SELECT CASE without a block IF inside on one source line, nested ones sharing their row, and (n <= 2) with LET before every assignment and CALL before every SUB call) over 15 construct kinds (IF, IF/ELSE, IF/ELSEIF/ELSE, single-line IF, two SELECT forms, four FOR forms, WHILE, four DO forms), children placed in the first or in the last body, at module level or inside a SUB; every body carries a trace statement; the program is printed, run on the real pipeline and on the reference semantics, and stdout / end state (error code and row) are compared. Non-trivial = every statement of the program was executed at least once. Axis R: the 13 binary operators on operands that are members of array-of-records elements with expression / FUNCTION-call subscripts, array elements with expression subscripts and FUNCTION calls on such elements, against a sub-expression, a literal, a variable and each other, in both orders, printed directly and stored first (72 programs). Axis P: a PRINT that leaves the line open (5 forms ending in ; or ,) and the PRINT that continues it (5 forms) in 5 placements (in sequence, the first three times in a FOR loop, in an IF block / a WHILE body, the first in a SUB, an assignment and an LPRINT in between); FOR headers whose literal start, limit or step does not fit the counter (Overflow before the body runs).");
     ev.set("exhaustive", !run.capped);
     ev.set("plan", json!(plan));
     ev.assume("reference semantics hand-written from the language definition (DESIGN.md appendix B), restricted to the exact numeric domain; cases the reference does not decide are counted as undecided and not judged");
